@@ -27,8 +27,35 @@ def gen_cases(seed, tier, n):
     for i in range(n):
         c = tracegen.gen_case(seed, i, tracegen.PROFILES[profs[i % len(profs)]])
         c["params"] = {}
+        if i % 6 == 5:
+            _mixed_last_group(c, random.Random(seed * 104729 + i))
         out.append(c)
     return out
+
+
+def _mixed_last_group(case, rng):
+    """The (process, thread) group that sorts last in a rank is one whose rows mix 'no stream' with a stream id: the device
+    rows get a process id above the host's, and a device-side annotation without args.stream sits on one of its streams
+    (some ranks only).  The host threads' call stacks and columns must not depend on what another group holds."""
+    for rk in case["ranks"].values():
+        if rng.random() < 0.3:
+            continue
+        evs = rk["events"]
+        gp = next((e["pid"] for e in evs if e.get("cat") in ("kernel", "Kernel", "gpu_memcpy", "gpu_memset")), None)
+        if gp is None:
+            continue
+        new_pid = max(e.get("pid", 0) for e in evs if isinstance(e.get("pid", 0), int)) + rng.choice([1, 1000])
+        dev = [e for e in evs if e.get("pid") == gp and e.get("ph") == "X" and "stream" in (e.get("args") or {})]
+        if not dev:
+            continue
+        for e in evs:
+            if e.get("pid") == gp:
+                e["pid"] = new_pid
+        last_tid = max(e["tid"] for e in dev)
+        span = [e for e in dev if e["tid"] == last_tid]
+        a = min(e["ts"] for e in span)
+        b_ = max(e["ts"] + e["dur"] for e in span)
+        evs.append({"ph": "X", "cat": "gpu_user_annotation", "name": "fwd", "pid": new_pid, "tid": last_tid, "ts": a, "dur": b_ - a + 1, "args": {}})
 
 
 def threads_of(rows):
